@@ -283,8 +283,10 @@ fn make_shards(num_shards: usize, page_cache_size: usize) -> Vec<CacheShard> {
                 fixed_level_cache: HashMap::with_hasher(FxBuildHasher::default()),
                 cached: LruCache::unbounded_with_hasher(FxBuildHasher::default()),
             }),
-            // UNWRAP: both factors are non-zero
-            page_limit: NonZeroUsize::new(page_limit_per_root_child * count).unwrap(),
+            // a cache of less than one page per root child (`page_cache_size(0)`) still holds one
+            // page per shard.
+            page_limit: NonZeroUsize::new(page_limit_per_root_child * count)
+                .unwrap_or(NonZeroUsize::MIN),
         })
         .collect()
 }
